@@ -104,7 +104,7 @@ def _unescape_tla(s):
     return s.replace('\\"', '"').replace('\\\\', '\\')
 
 
-def tlc(module, cfg=None, workers=None, simulate=None, depth=None, tlc_seed=None, timeout=300,
+def tlc(module, cfg=None, workers=None, simulate=None, depth=None, tlc_seed=None, timeout=180,
         extra_files=None, coverage=False, deque=False, constants=None, want_scn=True, heap=None):
     """Run TLC on spec/<module>.tla with spec/<cfg> in a scratch copy of the spec directory.
     constants: dict name -> TLA text, appended to a copy of the cfg as CONSTANT lines.
